@@ -268,7 +268,7 @@ func c15RunList(c *core.Ctx, texts []string) {
 }
 
 func init() {
-	sizes := map[core.Tier]int{core.Quick: 6000, core.Thorough: 300000}
+	sizes := map[core.Tier]int{core.Quick: 6000, core.Thorough: 2500000}
 	core.Register(&core.Prop{
 		ID:    "C15",
 		Level: "exploration",
